@@ -348,9 +348,9 @@ fn c07(_ctx: &Ctx, r: &mut Report) {
 }
 
 fn c09(_ctx: &Ctx, r: &mut Report) {
-    r.domain = "trait definitions: visibility {none, pub, pub(crate)} x {safe, unsafe} x generics / supertraits / where clause {absent, present} x attributes on trait and methods x method kinds {required, with default body, async} x associated type {absent, present}; option sets {none, mockall, unimock, delegate_by = ref}".into();
+    r.domain = "trait definitions: visibility {none, pub, pub(crate), pub(super), pub(self), pub(in super::a), pub(in crate::a)} x {safe, unsafe} x generics / supertraits / where clause {absent, present} x attributes on trait and methods x method kinds {required, with default body, async} x associated type {absent, present}; option sets {none, mockall, unimock, delegate_by = ref}".into();
     r.bound = "exhaustive over the listed features (2^k combinations)".into();
-    for vis in ["", "pub", "pub(crate)"] {
+    for vis in ["", "pub", "pub(crate)", "pub(super)", "pub(self)", "pub(in super::a)", "pub(in crate::a)"] {
         for unsafety in ["", "unsafe"] {
             for feat in 0..64u32 {
                 let const_first = feat & 32 != 0;
